@@ -72,10 +72,6 @@ func (self *Interpreter) letStatement(node ast.AnalyzedLetStatement) *value.Inte
 		return nil
 	}
 
-	if node.Expression.Type().Kind() != ast.AnyTypeKind && node.Expression.Type().Kind() != node.OptType.Kind() {
-		return nil
-	}
-
 	// TODO: improve performance here (not so much deref)
 
 	// TODO: is this ok? is it required to dynamically cast a value in here?
